@@ -48,7 +48,7 @@ func hasTag(tags []string, p string) bool {
 }
 
 func contractMentions(c *FuncContract, prop string) bool {
-	return hasTag(c.Props, prop)
+	return hasTag(c.Props, prop) || hasTag(c.AlsoProps, prop)
 }
 
 func main() {
